@@ -282,7 +282,7 @@ func ZZH_C10_net_changes() {
 	zzCommit(l, 1)
 	net := zz.Choice("net", 3) // 0 delete, 1 new value, 2 untouched
 	w := []byte{zz.U8("w")}
-	detour := zz.Choice("detour", 6)
+	detour := zz.Choice("detour", 7)
 	zz.Tag("C10.F-touched-record-hashed", detour >= 4)
 	run := func(plain bool) ([]byte, bool, []byte) {
 		x := zzNewLedger(store.Clone(), nil)
@@ -322,6 +322,14 @@ func ZZH_C10_net_changes() {
 				id := x.Snapshot()
 				x.SetBalance(zzAddrs[0], big.NewInt(9))
 				x.RevertToSnapshot(id)
+			case 6: // a contract deployment onto the account inside a snapshot that is reverted
+				apply()
+				hashBefore := x.GetCodeHash(zzAddrs[0]).String()
+				id := x.Snapshot()
+				x.SetCode(zzAddrs[0], []byte{0x60, 0x00})
+				x.RevertToSnapshot(id)
+				zz.Assert("C13.net.reverted-deployment-leaves-no-code", x.GetCode(zzAddrs[0]) == nil)
+				zz.Assert("C13.net.reverted-deployment-restores-the-code-hash", x.GetCodeHash(zzAddrs[0]).String() == hashBefore)
 			case 3: // a reverted write first, then the change
 				id := x.Snapshot()
 				x.SetState(zzAddrs[0], []byte("a"), []byte{zz.U8("tv")}, nil)
